@@ -58,7 +58,9 @@ RULE = ("requests over two fixed schemas (objects, lists, non-null, enum, input 
         "resolver outputs, with the stage at which each must be contained: generated valid operations (aliases, inline and "
         "named fragments, @skip/@include, mutations), every prefix of 7 seed documents, character and "
         "identifier mutants, hand-written schema-invalid documents, failing variable payloads, unknown operation "
-        "names; a share of all of them handed over as pre-parsed Documents with and without node locations, one response "
+        "names; structurally wrong JSON of every kind (list, dict, nested list, bool, number, string, null) at every leaf "
+        "position of variables (scalars, enum, custom scalar; list items; input-object fields) and leaf values at composite "
+        "positions; a share of all of them handed over as pre-parsed Documents with and without node locations, one response "
         "key selected two or three times (several nodes per error); each under graphql_blocking / process_graphql_query default / graphql (asyncio) / ThreadPoolRuntime; "
         "plus index_to_loc / loc_to_index on generated texts with LF, CR, CRLF and out-of-range arguments, and "
         "coerce_float on finite/non-finite inputs; non-trivial = the response has errors or a planted failure, or "
@@ -133,6 +135,17 @@ def corpus():
         c = _resp_case("A", "{ a }", {"a": shared_plain}, config=cfg, label="mapping-extensions-history")
         c["prelude"] = [["{ a s }", {"a": shared_plain}, "mutate"]]
         out.append(c)
+    # unhashable JSON (array / object) where an enum is expected (seeded C10-i): enum variable, item of a
+    # list-of-enum variable, enum field of an input-object variable
+    for i, (text, pl) in enumerate([
+            ("query Q($v: Color) { pick(c: $v) }", {"v": []}),
+            ("query Q($v: Color) { pick(c: $v) }", {"v": {"a": 1}}),
+            ("query Q($v: [Color!]) { pick(cs: $v) }", {"v": ["RED", [1], "GREEN"]}),
+            ("query Q($v: [Color!]) { pick(cs: $v) }", {"v": [{}]}),
+            ("query Q($v: Inp) { pick(inp: $v) }", {"v": {"a": 1, "c": ["RED"]}}),
+            ("query Q($v: Inp) { pick(inp: $v) }", {"v": {"a": 1, "c": {"x": [1]}}})]):
+        for cfg in G.CONFIGS:
+            out.append(_resp_case("A", text, {}, pl, None, cfg, "wrong-kind-variable"))
     # one ResolverError instance raised in an earlier, longer request and again in this one
     long_doc = "{\n  s\n  b\n  o {\n           a\n  }\n}"
     shared = ["raise_shared", "not found", {"code": 404}]
@@ -225,6 +238,16 @@ def generate(rng, tier):
                     world = {"o/id": ["raise", "also fails", {"k": 1}], "s": ["null"],
                              "lo/0/id": ["raise", "item error first", None], "me/friends/0/id": ["null"]}
                 cases.append(_resp_case(sname, text, world, pl, None, cfg, "directive-variables"))
+            n += 1
+    # structurally wrong JSON at every variable position
+    n = 0
+    for text, payloads in G.wrong_kind_variable_cases():
+        for pl in payloads:
+            for cfg in ([G.CONFIGS[n % 4]] if quick else [G.CONFIGS[n % 4], G.CONFIGS[(n + 1) % 4]]):
+                c = _resp_case("A", text, {}, pl, None, cfg, "wrong-kind-variable")
+                if n % 5 == 0:
+                    c["as_document"] = "noloc" if n % 10 == 0 else "loc"
+                cases.append(c)
             n += 1
     # operation names
     n = 0
@@ -374,6 +397,8 @@ def _stage_verdicts(schema, case):
             coerced = coerce_variable_values(schema, op, decode_floats(case["variables"]))
         except VariablesCoercionError as e:
             st["varcoercion"] = [abstract_error(x) for x in e.errors]
+        except Exception as e:  # noqa  variable coercion itself crashed: the entry point will too (reported)
+            st["varcoercion_crashed"] = type(e).__name__
         else:
             # @skip / @include arguments of the root selection set (collected before execution starts)
             try:
@@ -385,6 +410,8 @@ def _stage_verdicts(schema, case):
             coerce_variable_values(schema, op, decode_floats(case["variables"]))
         except VariablesCoercionError as e:
             st["varcoercion"] = [abstract_error(x) for x in e.errors]
+        except Exception as e:  # noqa
+            st["varcoercion_crashed"] = type(e).__name__
     return st, doc, op
 
 
@@ -665,6 +692,8 @@ def _stage_name(obs):
         return "validation"
     if st.get("opselect") is not None:
         return "operation-selection"
+    if st.get("varcoercion_crashed"):
+        return "variable-coercion (coerce_variable_values itself raised %s)" % st["varcoercion_crashed"]
     if st.get("varcoercion"):
         return "variable-coercion"
     if st.get("rootcoercion"):
